@@ -11,4 +11,6 @@ func Available() bool { return true }
 
 func install(h func(fid int), b func()) { verifyield.H, verifyield.B = h, b }
 
+func installU(u func()) { verifyield.U = u }
+
 func funcNames() []string { return verifyield.FuncNames }
